@@ -1061,6 +1061,9 @@ theorem LInv.step {s s' : State} (h : LInv s) (hL : Ledger s) {l : Label} (hstep
     · exact h.subEngine (fun _ hx => hx) (Nat.le_refl _) rfl rfl rfl
     · exact h
   | inboundFailed p => injection hstep with hstep; subst hstep; exact h.inboundFailed p
+  | setStored keys =>
+    injection hstep with hstep; subst hstep
+    exact h.subEngine (fun _ hx => hx) (Nat.le_refl _) rfl rfl rfl
 
 theorem LInv.reachable {s : State} (h : Reachable s) : LInv s := by
   induction h with
